@@ -314,7 +314,7 @@ func (m *Manager) UpdateConfig(config configs.QueueConfig, queuePath string) err
 	groupLimits := make(map[string]map[string]*LimitConfig) // Holds queue path * group limit config
 
 	// as and when parse new configs, store them in temporary maps
-	if err := m.internalProcessConfig(config, queuePath, userLimits, groupLimits, userWildCardLimitsConfig, groupWildCardLimitsConfig, configuredGroups); err != nil {
+	if err := m.internalProcessConfig(config, strings.ToLower(queuePath), userLimits, groupLimits, userWildCardLimitsConfig, groupWildCardLimitsConfig, configuredGroups); err != nil {
 		return err
 	}
 
@@ -395,7 +395,8 @@ func (m *Manager) internalProcessConfig(cur configs.QueueConfig, queuePath strin
 	}
 	if len(cur.Queues) > 0 {
 		for _, child := range cur.Queues {
-			childQueuePath := queuePath + configs.DOT + child.Name
+			// queue objects carry lower case names: a limit on a mixed case queue name must end up on the same path
+			childQueuePath := queuePath + configs.DOT + strings.ToLower(child.Name)
 			if err := m.internalProcessConfig(child, childQueuePath, newUserLimits, newGroupLimits, newUserWildCardLimitsConfig, newGroupWildCardLimitsConfig, newConfiguredGroups); err != nil {
 				return err
 			}
